@@ -1,4 +1,6 @@
 import TongoProofs.Lemmas.TonConnect
+import TongoGen.TonConnectMsg
+import TongoProofs.Lemmas.GenTiesWallet
 /-! Property C19 — TON Connect proofs are accepted only for the key controlling the address.
 
 Model: `TongoModel/TonConnect.lean`. `H` (SHA-256), `mac` (HMAC-SHA-256 under the server secret), `sign`/`verify`
@@ -534,5 +536,30 @@ example : ∀ sk m : List UInt8, (fun pk m s => s == pk ++ m) (id sk) m ((fun sk
 example : ∃ k, getWalletPubKey (.int (256 ^ 31)) = .ok k ∧ k.length = 32 := by
   refine ⟨_, rfl, ?_⟩
   decide
+
+/-! ### the integer fields of the signed message: regenerated Go code against the model -/
+
+/-- tie (X4, regenerated from tonconnect/server.go): the three integer fields of `createMessage`
+(`binary.BigEndian.PutUint32(wc, uint32(message.workChain))`, `binary.LittleEndian.PutUint32(dl, uint32(len(domain)))`,
+`binary.LittleEndian.PutUint64(ts, uint64(message.ts))`, translated to byte shifts on `BitVec` on every run:
+`Gen.TonConnectMsg.createMessageInts`, components `(wc, dl, ts)`) are the `beBytes 4 (u32OfInt wc)`,
+`leBytes 4 (len % 2^32)`, `leBytes 8 (u64OfInt ts)` of the model: `messageBytes m` is the Go concatenation
+`prefix ++ wc ++ address ++ dl ++ domain ++ ts ++ payload` for every `int32` workchain, `int64` timestamp and domain
+of Go-`int` length. -/
+theorem gen_createMessageInts (m : Parsed)
+    (hw : -(2 : Int) ^ 31 ≤ m.workchain ∧ m.workchain < 2 ^ 31) (ht : -(2 : Int) ^ 63 ≤ m.ts ∧ m.ts < 2 ^ 63)
+    (hl : m.domain.length < 2 ^ 63) :
+    messageBytes m =
+      tonProofPrefix
+        ++ (Gen.TonConnectMsg.createMessageInts (BitVec.ofInt 32 m.workchain) (BitVec.ofNat 64 m.domain.length)
+              (BitVec.ofInt 64 m.ts)).1.map UInt8.ofBitVec
+        ++ m.address
+        ++ (Gen.TonConnectMsg.createMessageInts (BitVec.ofInt 32 m.workchain) (BitVec.ofNat 64 m.domain.length)
+              (BitVec.ofInt 64 m.ts)).2.1.map UInt8.ofBitVec
+        ++ m.domain
+        ++ (Gen.TonConnectMsg.createMessageInts (BitVec.ofInt 32 m.workchain) (BitVec.ofNat 64 m.domain.length)
+              (BitVec.ofInt 64 m.ts)).2.2.map UInt8.ofBitVec
+        ++ m.payload :=
+  GenTies.gen_createMessageInts m hw ht hl
 
 end Tongo.C19
